@@ -61,6 +61,14 @@ type POp struct {
 	T  int `json:"t"`
 	KD int `json:"kd"`
 	KM int `json:"km"`
+	// multi-fraction histories (multi.go): rotate | seal | rotatecrash | sealcrash | restartcrash.
+	// J = completed model-level operations of the crashed step (-1 = chosen at run time), Torn = the next
+	// one (a temp-file write) torn, PL = power loss; CutV = per fraction, completed operations of a crashed
+	// start-up without directory fsyncs (filled at run time); Acked (rotate/seal) = the step did something
+	J    int   `json:"j,omitempty"`
+	Torn bool  `json:"torn,omitempty"`
+	PL   bool  `json:"pl,omitempty"`
+	CutV []int `json:"cutv,omitempty"`
 }
 
 // CUnit is one unit of a concurrent group as it ran under the writer's mutex.
@@ -80,6 +88,7 @@ type Plan struct {
 	// the operations as generated (Ops is cut at the point where the store died or hung)
 	Planned []POp `json:"planned_ops,omitempty"`
 	Fault   bool  `json:"fault,omitempty"` // fault history: bulks go through xbulk (no WaitIdle, see fault.go)
+	Multi   bool  `json:"multi,omitempty"` // multi-fraction history (multi.go)
 }
 
 func (d PDoc) mid() uint64 { return 1000 + uint64(d.ID) }
@@ -116,6 +125,8 @@ type result struct {
 	exts  [][][2]uint64 // per child process: (Ext1, Ext2) of the blocks of the real .meta file at its end
 	err   error // harness-level problem: the history is dropped
 	ntriv bool
+	mobs  []mobs   // multi-fraction histories: observations with the fraction list
+	mops  []string // ... and the projected operations, rendered
 }
 
 // ---------------------------------------------------------------------------- execution
@@ -628,6 +639,9 @@ func fileLen(st *crashfs.State, kind string) int {
 
 // exec runs the plan; the resolved crash parameters are stored back into the plan.
 func exec(plan Plan, tmp string) (res *result) {
+	if plan.Multi {
+		return execMulti(plan, tmp)
+	}
 	plan.Planned = nil
 	res = &result{plan: plan, bulks: make([]bulkBytes, len(plan.Bulks))}
 	res.plan.Ops = append([]POp(nil), plan.Ops...)
@@ -1037,6 +1051,9 @@ func exec(plan Plan, tmp string) (res *result) {
 func natList(xs []int) string { return casefile.NatList(xs) }
 
 func coqCase(res *result) (string, bool) {
+	if res.plan.Multi {
+		return coqCaseMulti(res)
+	}
 	var sb strings.Builder
 	kept := res.plan.Ops[:0:0]
 	for _, o := range res.plan.Ops {
@@ -1461,7 +1478,7 @@ func main() {
 		fmt.Fprintln(os.Stderr, "usage: hC01 -seed N -tier quick|thorough -out DIR [-replay file]")
 		os.Exit(2)
 	}
-	w, err := casefile.New(*out, "C01", "From VLib Require Import CaseLib.\nFrom C01 Require Import Model CaseDefs.\nOpen Scope nat_scope.", 16)
+	w, err := casefile.New(*out, "C01", "From VLib Require Import CaseLib.\nFrom C01 Require Import Model ModelMulti CaseDefs.\nOpen Scope nat_scope.", 16)
 	if err != nil {
 		panic(err)
 	}
@@ -1548,6 +1565,7 @@ func main() {
 		for i := 0; i < nBig; i++ {
 			bigs = append(bigs, genBigTrial(g.r, *tier == "thorough"))
 		}
+		plans = append(plans, multiPlans(g, *tier == "thorough")...)
 	}
 	results := make([]*result, len(plans))
 	var wg sync.WaitGroup
@@ -1611,6 +1629,47 @@ func main() {
 			continue
 		}
 		term, ok := coqCase(res)
+		if res.plan.Multi {
+			if !ok && len(res.mobs) > 0 && res.mobs[len(res.mobs)-1].Died {
+				w.Violate("c01-store-died-or-hung", "the store died or stopped answering: "+res.mobs[len(res.mobs)-1].Why, res.plan)
+				continue
+			}
+			if !ok {
+				w.Violate("c01-bulk-without-block-writes", "a bulk was acknowledged without a docs block and a meta block being written", res.plan)
+				continue
+			}
+			nfr := 0
+			for _, o := range res.plan.Ops {
+				w.Count("multi-op:" + o.Kind)
+				switch o.Kind {
+				case "sealcrash":
+					if o.Acked {
+						w.Count(fmt.Sprintf("seal-crash-after-op:%d", o.J))
+					} else {
+						w.Count("seal-crash:nothing-to-seal")
+					}
+				case "rotatecrash":
+					w.Count(fmt.Sprintf("rotate-crash-after-op:%d", o.J))
+				case "restartcrash":
+					w.Count(fmt.Sprintf("startup-crash-after-op:%d", o.J))
+				}
+			}
+			for _, o := range res.mobs {
+				if !o.Died && len(o.Fracs) > nfr {
+					nfr = len(o.Fracs)
+				}
+				for _, f := range o.Fracs {
+					if f.Sealed {
+						w.Count("multi-served:sealed-fraction")
+					} else {
+						w.Count("multi-served:active-fraction")
+					}
+				}
+			}
+			w.Count(fmt.Sprintf("multi-max-fractions-served:%d", nfr))
+			w.Add(term, res.plan.Class, res.ntriv, res.plan, res.mobs)
+			continue
+		}
 		if !ok && len(res.obs) > 0 && res.obs[len(res.obs)-1].Died {
 			w.Violate("c01-store-died-or-hung", "the store died or stopped answering: "+res.obs[len(res.obs)-1].Why, res.plan)
 			continue
